@@ -437,8 +437,8 @@ fn host_info(text: &str) -> HostInfo {
 
 const SCHEMES_Q: [&str; 7] = ["http", "https", "ws", "wss", "ftp", "data", "HTTP"];
 const SCHEMES_T: [&str; 11] = ["http", "https", "ws", "wss", "ftp", "data", "HTTP", "Wss", "x", "chrome-extension", "h2+a.b"];
-const SLASHES_Q: [&str; 1] = ["://"];
-const SLASHES_T: [&str; 6] = ["://", ":", ":/", ":////", ":\\\\", ":/\\"];
+const SLASHES_Q: [&str; 2] = ["://", ":"];
+const SLASHES_T: [&str; 5] = ["://", ":", ":/", ":////", ":/\\"];
 const USERINFO_Q: [&str; 4] = ["", "u@", "u:p@", "a.b@"];
 const USERINFO_T: [&str; 10] = ["", "u@", "u:p@", "a.b@", "@", "u:@", ":p@", "é@", "u@v@", "u\t@"];
 const PORTS_Q: [&str; 2] = ["", ":8080"];
@@ -575,7 +575,9 @@ fn build_inits(thorough: bool) -> Vec<Init> {
     }
     if thorough {
         for h in HOSTS {
-            v.push(make_init(format!("http://u:p@{}:8080/?x=http://other.com/", h), Some(h)));
+            if host_info(h).class != HClass::NonCanon {
+                v.push(make_init(format!("http://u:p@{}:8080/?x=http://other.com/", h), Some(h)));
+            }
         }
     }
     v
@@ -604,6 +606,36 @@ impl<'a> Parts<'a> {
                "host": self.host, "port": self.port, "path": self.path, "url": self.url(),
                "init": init.url, "init_kind": ik, "init_host": ih, "type": ty})
     }
+}
+
+/// A label that DNS (and the URL standard) allows but domain registries do not: it starts or
+/// ends with a non-alphanumeric ASCII character or contains one other than '-'.
+fn has_unregistrable_label(ascii_host: &str) -> bool {
+    ascii_host.trim_end_matches('.').split('.').any(|lab| {
+        let b = lab.as_bytes();
+        !b.is_empty()
+            && (!(b[0].is_ascii_alphanumeric() || b[0] >= 0x80)
+                || !(b[b.len() - 1].is_ascii_alphanumeric() || b[b.len() - 1] >= 0x80)
+                || b.iter().any(|c| *c < 0x80 && !c.is_ascii_alphanumeric() && *c != b'-'))
+    })
+}
+
+/// Classifier only: the party verdict under the model "a host with such a label has no
+/// registrable domain and is its own site" (the structural cause of the known finding).
+fn label_syntax_model_third(req: &HostInfo, src: &HostInfo) -> bool {
+    let model = |h: &HostInfo| -> Option<String> {
+        let a = h.ascii.as_deref()?;
+        if a.starts_with('[') || a.parse::<std::net::Ipv4Addr>().is_ok() {
+            return h.site.clone();
+        }
+        if has_unregistrable_label(a) {
+            Some(a.to_string())
+        } else {
+            h.site.clone()
+        }
+    };
+    let any = [req, src].iter().any(|h| h.ascii.as_deref().map_or(false, |a| !a.starts_with('[') && has_unregistrable_label(a)));
+    any && model(req) != model(src)
 }
 
 fn host_feature(h: &HostInfo) -> &'static str {
@@ -654,7 +686,7 @@ fn smis(l: &mut Local, sig: String, what: String, p: &Parts, init: &Init, ty: &s
         sig,
         what,
         case: p.json(init, ty),
-        size: (url.len() * 100 + init.url.len() + ty.len()) as u64,
+        size: (url.len() * 100 + init.url.len() + ty.len() + if p.slashes != "://" { 100_000 } else { 0 } + if !p.scheme.starts_with("http") { 10_000 } else { 0 }) as u64,
     });
 }
 
@@ -869,6 +901,7 @@ fn struct_eval(
             });
             if exp != r.is_third_party {
                 let cause = match &init.kind {
+                    InitKind::Host(src) if !exp && label_syntax_model_third(hi, src) => "label-syntax-fallback".to_string(),
                     InitKind::Host(src) => {
                         let (a, b) = (host_feature(hi), host_feature(src));
                         if a == "plain" {
@@ -940,7 +973,12 @@ fn struct_eval(
             let same_spelling = &r.url == url;
             let mut a2 = a.clone();
             let mut b2 = b.clone();
-            if !same_spelling {
+            if uo.authority_ctl {
+                // normalisation of such authorities is not pinned (and not idempotent): only
+                // whether a rewrite happened is compared
+                a2.rewritten = a.rewritten.as_ref().map(|_| String::new());
+                b2.rewritten = b.rewritten.as_ref().map(|_| String::new());
+            } else if !same_spelling {
                 a2.rewritten = norm(&a.rewritten);
                 b2.rewritten = norm(&b.rewritten);
             }
@@ -1020,7 +1058,7 @@ fn check(ctx: &Ctx) -> i32 {
     let np = PREFIXES.len() as u64;
     ctx.par_range("totality", strings * np, 4096, |i, l| {
         let s = format!("{}{}", PREFIXES[(i % np) as usize], nth_string(i / np, &SIGMA));
-        if l.samples.is_empty() && (i + ctx.seed) % 1_000_003 == 17 {
+        if i == (ctx.seed.wrapping_mul(7919) + 1_234_567) % (strings * np) {
             l.samples.push(json!({"kind": "total", "s": s}));
         }
         total_case(&s, l);
@@ -1086,7 +1124,7 @@ fn check(ctx: &Ctx) -> i32 {
         }
         let hi = &hosts[d[5]];
         let p = Parts { scheme: schemes[d[4]], slashes: slashes[d[3]], userinfo: userinfos[d[2]], host: &hi.text, port: ports[d[1]], path: paths[d[0]] };
-        if l.samples.len() < 2 && (i + ctx.seed) % 1009 == 3 {
+        if i == (ctx.seed + 3) % n_urls || i == (ctx.seed.wrapping_mul(31) + n_urls / 2) % n_urls {
             l.samples.push(p.json(&inits[(i as usize + 1) % inits.len()], types[i as usize % types.len()]));
         }
         struct_url(&p, hi, &inits, types, l);
